@@ -562,6 +562,11 @@ where
         match self.session.local_state() {
             SessionState::Unmapped => {}
             SessionState::BeginSent | SessionState::BeginReceived | SessionState::Mapped => {
+                // An end that carries an error puts the session in the DISCARDING state:
+                // whatever the peer still sends before its own end is dropped unseen.
+                // Acting on it could fail a second time and stop the engine before the
+                // peer's end arrives, which the connection could then no longer deliver.
+                let discard_other_frame = error.is_some();
                 self.session
                     .send_end(&self.outgoing, error)
                     .await
@@ -570,7 +575,7 @@ where
                             self.session.connection_stop_reason(),
                         ))
                     })?;
-                let (channel, end) = self.wait_for_remote_end(false).await?;
+                let (channel, end) = self.wait_for_remote_end(discard_other_frame).await?;
                 self.session.on_incoming_end(channel, end)?;
             }
             SessionState::EndSent => {
